@@ -280,7 +280,7 @@ BASE_ROWS = {
     "u": ([(9, 9, "z")], ["a", "b", "s"]),
 }
 
-_CANON = re.compile(r"\bt\d{4,9}\b|\ba\d+\b|\br[0-9a-f]{32}\b|\b[0-9a-f]{32}\b")
+_CANON = re.compile(r"\b(?P<T>t\d{4,9})\b|\b(?P<A>a\d{1,6})\b|\b(?P<R>r[0-9a-f]{32})\b|\b(?P<X>[0-9a-f]{32})\b")
 
 
 def canon_sql(text: str) -> str:
@@ -291,7 +291,7 @@ def canon_sql(text: str) -> str:
     def rep(m):
         k = m.group(0)
         if k not in names:
-            kind = "T" if k[0] == "t" else "A" if k[0] == "a" else "R" if k[0] == "r" and len(k) == 33 else "X"
+            kind = m.lastgroup
             names[k] = f"{kind}{sum(1 for v in names.values() if v[0] == kind)}"
         return names[k]
     return _CANON.sub(rep, text)
@@ -459,7 +459,7 @@ class _Ctx:
 # ------------------------------------------------------------------------------------------------------------
 # Coq terms
 # ------------------------------------------------------------------------------------------------------------
-_NAME_OK = re.compile(r"^[A-Za-z0-9_]*$")
+_NAME_OK = re.compile(r"^[A-Za-z0-9_()*. <>=+-]*$")   # no separator of the digest format
 
 
 def hint_coq(h):
@@ -531,9 +531,20 @@ def names_ok(run: Run):
 BASES = ("df", "jn", "o2", "u")
 
 
-def build_state(run: Run, state: str):
-    """base tables, `d` in the requested last-operation state, and relatives that exist BEFORE the follow-up"""
-    for v in BASES:
+def needed_bases(state, fkeys):
+    need = {"df"}
+    for key in list(STATES[state]) + [k for k, _ in fkeys] + ["child_join"]:
+        o = ALPHABET[key]["other"]
+        if o in BASES:
+            need.add(o)
+    return [b for b in BASES if b in need]
+
+
+def build_state(run: Run, state: str, fkeys=()):
+    """base tables, `d` in the requested last-operation state, and relatives that exist BEFORE the follow-up:
+    a child c1 = d.where(..); for states with pending hints also c2 = c1.join(jn) and c3 = d.join(jn), which share
+    d's hint objects"""
+    for v in needed_bases(state, fkeys):
         run.create(v)
     cur = "df"
     for i, key in enumerate(STATES[state]):
@@ -547,7 +558,7 @@ def build_state(run: Run, state: str):
     if run.steps[-1]["raised"]:
         raise Raised("child_where failed")
     cols = [c.lower() for c in run.vars[d_name].expression.named_selects]
-    if cols[0] == "a":
+    if cols[0] == "a" and (state in HINT_STATES or state == "FROM_join"):
         run.call("c1", "child_join", "c2", snap=False)
         run.call(d_name, "child_join", "c3", snap=True)
     else:
@@ -562,11 +573,12 @@ def observed_vars(run: Run, before_vars, involved, thorough):
 
 def observe_round(run: Run, vars_, rnd, dname, thorough, involved):
     for i, v in enumerate(vars_):
-        collect = thorough or v in (dname, "c1") or v in involved
+        collect = thorough or v == dname or v in involved
         run.observe(v, rnd, collect=collect, snap=(i == len(vars_) - 1))
 
 
 _CONTROL = {}
+CONTROL_KEYS = (("join_expr", None), ("union_base", None))   # makes the control run create every base table
 
 
 def control(state, thorough):
@@ -574,7 +586,8 @@ def control(state, thorough):
     key = (state, thorough)
     if key not in _CONTROL:
         B = Run(with_schema=thorough)
-        dname = build_state(B, state)
+        # the control creates every base table; observations are compared per variable, so extra ones do no harm
+        dname = build_state(B, state, CONTROL_KEYS)
         before = list(B.order)
         vars_ = observed_vars(B, before, set(before), True)   # control observes every variable
         nstep = len(B.steps)
@@ -625,7 +638,7 @@ def scenario(state, fkeys, protocol, thorough=False):
     out = {"state": state, "follow": fkeys, "protocol": protocol}
     A = Run(with_schema=thorough)
     try:
-        dname = build_state(A, state)
+        dname = build_state(A, state, fkeys)
     except Raised as ex:
         out["skip"] = str(ex)
         return out
@@ -656,8 +669,16 @@ def scenario(state, fkeys, protocol, thorough=False):
         c["other_name"] = A.order[c["other"]] if c["other"] is not None else None
         calls.append(c)
     observe_round(A, vars_, 1, dname, thorough, involved)
-    rep_vars = vars_ if thorough else [v for v in vars_ if v in (dname, "c1", "c2")]
-    observe_round(A, rep_vars, 2, dname, thorough, involved)
+    # second look (repeating an action must give the same answer): everything in the thorough tier; in the quick tier
+    # the DataFrames involved, when the follow-up itself was an action / metadata call / accessor
+    if thorough:
+        rep_vars = vars_
+    elif any(c["group"] != "transformation" for c in calls):
+        rep_vars = [v for v in vars_ if v == dname or v in involved]
+    else:
+        rep_vars = []
+    if rep_vars:
+        observe_round(A, rep_vars, 2, dname, thorough, involved)
     if not names_ok(A):
         out["skip"] = "a generated name is not a plain identifier"
         return out
@@ -703,36 +724,62 @@ def describe(sc):
 
 
 def _worker(args):
+    import logging
+    import warnings
+    logging.disable(logging.CRITICAL)
+    warnings.filterwarnings("ignore")
     specs, thorough = args
     get_session()
     out = []
+    t = time.process_time()
     for state, fkeys, proto in specs:
         try:
             out.append(scenario(state, fkeys, proto, thorough))
         except Exception as ex:   # a crash of the harness itself must not look like agreement
             out.append({"state": state, "follow": fkeys, "protocol": proto, "crash": f"{type(ex).__name__}: {ex}"})
+    if out:
+        out[0]["cpu_s"] = time.process_time() - t
     return out
 
 
 # ------------------------------------------------------------------------------------------------------------
 QUICK_STATES = ["INIT", "WHERE", "SELECT", "SELECT_mixed", "ORDER_BY", "LIMIT", "FROM_join", "SELECT_groupagg", "NO_OP_alias",
                 "HINT", "HINT_join", "REPARTITION_where"]
+CORE_STATES = ["WHERE", "SELECT", "FROM_join", "HINT_join"]
+
+
+REDUCED_KEYS = ["select_mixed", "select_alias", "select_star", "select_none", "agg_alias", "withColumn_case", "withColumns",
+                "rename_clash", "where", "orderBy", "limit", "distinct", "drop", "dropna", "fillna", "toDF", "groupBy_agg",
+                "cube_count", "join_name", "union", "unionByName", "alias", "hint_broadcast", "repartition", "collect", "head",
+                "show", "count", "isEmpty", "corr", "schema", "sql", "columns", "getitem", "tempView", "cache"]
+
+
+def reduced_alphabet(follow):
+    """quick tier, non-core states: one representative per family of methods + every shape that writes display names"""
+    return [k for k in follow if k in REDUCED_KEYS]
 
 
 def plan(ctx):
     rnd = random.Random(ctx.seed)
     follow = [k for k, a in ALPHABET.items() if a["group"] in ("transformation", "action", "metadata", "accessor")]
-    states = list(STATES) if ctx.tier == "thorough" else QUICK_STATES
+    thorough = ctx.tier == "thorough"
+    states = list(STATES) if thorough else QUICK_STATES
+    reduced = reduced_alphabet(follow)
     scen = []
     for state in states:
-        for k in follow:
+        for k in (follow if thorough or state in CORE_STATES else reduced):
             scen.append((state, [(k, None)], "A"))
     # before/after on the same objects (observation first)
     writers = [k for k in follow if ALPHABET[k]["name"] in DISPLAY_METHODS or k in ("alias", "collect", "isEmpty", "corr", "where")]
     for state in states:
-        ks = list(writers) if ctx.tier == "thorough" else rnd.sample(writers, 4)
+        ks = list(writers) if thorough else rnd.sample(writers, 3)
         for k in ks:
             scen.append((state, [(k, None)], "C"))
+    # actions / wraps on a RELATIVE that shares hint objects with d (the control run looks at d, c1, c2, c3 in this order)
+    for state in (s_ for s_ in states if s_ in HINT_STATES):
+        for k in ("collect", "sql", "count", "select_same", "orderBy", "alias"):
+            for rv in ("c3", "c2"):
+                scen.append((state, [(k, rv)], "A"))
     # interleavings on siblings / relatives
     core_ = ["select_mixed", "withColumn_case", "rename_clash", "agg_alias", "where", "orderBy", "limit", "join_name",
              "union_self", "alias", "hint_broadcast", "collect", "count", "sql", "drop", "distinct", "groupBy_count"]
@@ -743,7 +790,7 @@ def plan(ctx):
                 for r1, r2 in ((None, "c1"), ("c1", None), (None, None)):
                     pairs.append((state, [(k1, r1), (k2, r2)], "A"))
     rnd.shuffle(pairs)
-    scen += pairs[: (160 if ctx.tier == "quick" else 3000)]
+    scen += pairs[: (100 if not thorough else 3000)]
     return scen
 
 
@@ -798,7 +845,9 @@ def run(ctx: core.Ctx):
                    f"{crashed[0]['follow']}: {crashed[0]['crash']}")
     skipped = [r for r in results if r.get("skip")]
     metas = [r for r in results if not r.get("skip") and not r.get("crash")]
-    ctx.log(f"{len(metas)} scenarios ran on the implementation in {time.time() - t0:.1f}s ({len(skipped)} skipped, {len(crashed)} crashed)")
+    cpu = sum(r.get("cpu_s", 0) for r in results)
+    ctx.log(f"{len(metas)} scenarios ran on the implementation in {time.time() - t0:.1f}s wall / {cpu:.0f}s cpu "
+            f"({len(skipped)} skipped, {len(crashed)} crashed)")
     # ---- T3: model
     controls = {}
     for sc in metas:
@@ -853,7 +902,10 @@ def run(ctx: core.Ctx):
         n_changed += bool(impl_changed)
         for dv in sc["devs"]:
             n_dev += 1
-            culprit = sc["calls"][0]["name"] if len(sc["calls"]) == 1 else blame(sc, dv)
+            bc = sc["calls"][0] if len(sc["calls"]) == 1 else blame(sc, dv)
+            culprit = bc["name"] if bc else "+".join(c["name"] for c in sc["calls"])
+            if bc:
+                dv = dict(dv, role=role_of(dv["var"], bc["recv_name"], bc["other_name"]))
             if dv["kind"] == "existing-changed":
                 sig = signature(culprit, dv["role"], dv["fields"], dv["hint_only"])
                 what = f"{culprit}() changed what an existing DataFrame ({dv['role']}) reports: {dv['fields']}"
@@ -892,6 +944,10 @@ def run(ctx: core.Ctx):
                    f"model={f0['model']['model_says_changed']}/{f0['model']['model_says_repeat_differs']} impl={f0['implementation_changed']}",
                    data=pred_mismatch[:5])
     public = [e["name"] for e in entries]
+    if any(n.startswith("groupBy.") for n in covered):
+        covered |= {"groupBy", "groupby"}
+    if any(n.startswith("cube.") for n in covered):
+        covered |= {"cube"}
     uncovered = sorted(set(public) - covered - {"pending_join_hints", "pending_partition_hints", "latest_cte_name",
                                                 "cache@base", "persist@base"})
     ctx.coverage.update({
@@ -924,16 +980,16 @@ def run(ctx: core.Ctx):
 
 
 def blame(sc, dv):
-    """which of several follow-up calls to name in the signature"""
+    """which of several follow-up calls is responsible for a change (None = cannot tell)"""
     for c in sc["calls"]:
         if c["recv_name"] == dv["var"] and c["name"] in DISPLAY_METHODS:
-            return c["name"]
+            return c
     if dv.get("hint_only"):
         for c in sc["calls"]:
             if c["name"] == "alias":
-                return "alias"
-        return sc["calls"][0]["name"]
-    return "+".join(c["name"] for c in sc["calls"])
+                return c
+        return sc["calls"][0]
+    return None
 
 
 def replay(ctx: core.Ctx, rp: dict) -> int:
